@@ -12,11 +12,13 @@ structure NameSt where
   name : String
   st : State
   sids : List Nat            -- internal ids of this name's generations, in creation order (index = generation)
+  tid : Option Nat := none   -- topic (internal id) of the latest attach of this name
+  off : Bool := false        -- that topic was deleted while holding the entry: the slice assumes a live topic
 
 structure VSt where
   case : String := ""
   names : List NameSt := []
-  off : Bool := false        -- a topic was deleted in this case: the slice assumes a live topic
+  deadTopics : List Nat := []   -- internal ids of deleted topics
 
 def genOf (n : NameSt) (sid : Nat) : Option Nat := n.sids.idxOf? sid
 
@@ -38,24 +40,31 @@ def vStep (v : VSt) (line : String) : VSt × String :=
   match line.trimAscii.toString.splitOn " " with
   | c :: rest =>
     let v := if c != v.case then ({ case := c } : VSt) else v
-    if v.off then (v, "ok") else
     match rest with
-    | ["topic", _, "delete"] => ({ v with off := true }, "ok")
+    | ["topic", tid, "delete"] =>
+      -- the deleted topic's map is cleared: names whose entry it held leave the slice
+      ({ v with deadTopics := parseNat tid :: v.deadTopics,
+                names := v.names.map (fun n => if n.tid == some (parseNat tid) && n.st.topic.isSome then { n with off := true } else n) }, "ok")
     | "sub" :: sid :: "new" :: _ :: name :: _ =>
       let sid := parseNat sid
       let n : NameSt := match v.names.find? (·.name == name) with
         | some n => n
         | none => { name := name, st := init true, sids := [] }
       -- the generation number the model will give it
+      if n.off then (setName v { n with sids := n.sids ++ [sid] }, "ok") else   -- remembered, not validated
       if n.st.next != n.sids.length then (v, "p1:internal") else
       match runL n.st [.create] with
       | .ok s' => (setName v { n with st := s', sids := n.sids ++ [sid] }, "ok")
       | .error e => (v, "p1:create-while-registered " ++ name ++ " " ++ e)
-    | ["topic", _, "attach", sid] =>
+    | ["topic", tid, "attach", sid] =>
       let sid := parseNat sid
       match findBySid v sid with
       | none => (v, "p1:attach-of-unknown-subscription")
       | some n =>
+        if n.off then (v, "ok") else
+        -- an attach served by an already deleted topic's actor: the name leaves the slice
+        if v.deadTopics.contains (parseNat tid) then (setName v { n with off := true, tid := some (parseNat tid) }, "ok") else
+        let n := { n with tid := some (parseNat tid) }
         match genOf n sid with
         | none => (v, "p1:internal")
         | some g =>
@@ -67,17 +76,18 @@ def vStep (v : VSt) (line : String) : VSt × String :=
             else match runL s1 [.topicTake] with
               | .ok s2 => (setName v { n with st := s2 }, "ok")
               | .error e => (v, "p1:attach " ++ e)
-    | ["topic", _, "remove", who] =>
+    | ["topic", tid, "remove", who] =>
       -- removal is by name; the event shows which internal id was in the topic's map ("-" = none).
       -- Which name? the one whose helper is about to send / has sent the remove.
-      let busy := fun (n : NameSt) => (List.range n.st.next).any (fun g => (n.st.gen g).helper = .toSend || (n.st.gen g).helper = .sent)
+      let busy := fun (n : NameSt) => !n.off && n.tid == some (parseNat tid) && (List.range n.st.next).any (fun g => (n.st.gen g).helper = .toSend || (n.st.gen g).helper = .sent)
       let cand := if who == "-" then
           (match v.names.find? (fun n => busy n && n.st.topic.isNone) with
            | some n => some n
            | none => v.names.find? busy)
         else (findBySid v (parseNat who)).filter busy
+      let offOwner := if who == "-" then v.names.any (·.off) else ((findBySid v (parseNat who)).map (·.off)).getD false
       match cand with
-      | none => (v, "p1:remove-without-delete")
+      | none => if offOwner then (v, "ok") else (v, "p1:remove-without-delete")
       | some n =>
         let g := ((List.range n.st.next).find? (fun g => (n.st.gen g).helper = .toSend || (n.st.gen g).helper = .sent)).getD 0
         let pre := if (n.st.gen g).helper = .toSend then [Label.helperSend g] else []
@@ -97,6 +107,7 @@ def vStep (v : VSt) (line : String) : VSt × String :=
       match findBySid v sid with
       | none => (v, "p1:delete-of-unknown-subscription")
       | some n =>
+        if n.off then (v, "ok") else
         match genOf n sid with
         | none => (v, "p1:internal")
         | some g =>
@@ -113,6 +124,7 @@ def vStep (v : VSt) (line : String) : VSt × String :=
       match findBySid v sid with
       | none => (v, "p1:delete-of-unknown-subscription")
       | some n =>
+        if n.off then (v, "ok") else
         match genOf n sid with
         | none => (v, "p1:internal")
         | some g =>
